@@ -140,7 +140,10 @@ def main():
         ],
         "checks": checks,
         "not_applicable": na,
-        "notes": "Exit codes: 0 held, 1 violation (refuted obligation), 2 undecided (never an alarm). See DESIGN.md.",
+        "notes": "Exit codes: 0 held (open known findings are announced as KNOWN-FINDING lines), 1 violation (refuted obligation not listed in known_findings.json), "
+                 "2 undecided (never an alarm). Seven genuine defects were repaired by `fix:` commits in /repo (C05, C06, C07, C08, C10 x2, C15) and two are recorded as open known findings "
+                 "(C15 NaN when the spread of >= 5 observations overflows f64; C17 WeightedMean::merge when weight*mean products over/underflow); see known_findings.json and DESIGN.md sections 17-25. "
+                 "No hook in /repo was needed. Items labelled `bounded` in the evidence are stand-ins with a stated bound and are never counted in obligations/discharged.",
     }
     with open(os.path.join(VERIF, "MANIFEST.json"), "w") as f:
         json.dump(m, f, indent=1)
